@@ -1415,3 +1415,74 @@ def _remove_unused(model, extra):
             if stm not in prg:
                 problems.append({"invented": str(stm)})
     return {"confirmed": bool(problems), "problems": problems[:3]}
+
+
+# ---------------------------------------------------------------------------------------------
+# C14: what Goebner.to_sympy hands to the algebra means what the literal means (over sample integers)
+@mirror("to_sympy")
+def _to_sympy(model, extra):
+    import itertools
+
+    import sympy
+    from clingo.ast import parse_string
+
+    from ngo.math_simplification import Goebner
+
+    problems = []
+    ops = ["=", "!=", "<", "<=", ">", ">="]
+    texts = [f"{s}X {o} Y" for s in ("", "not ", "not not ") for o in ops]
+    texts += [f"{s}X {o} #sum{{V : p(V)}}" for s in ("", "not ", "not not ") for o in ops]
+    texts += [f"{s}X {o1} #sum{{V : p(V)}} {o2} Y" for s in ("", "not ", "not not ") for o1 in ops for o2 in ("<", ">=", "!=")]
+    pyop = {"=": lambda a, b: a == b, "!=": lambda a, b: a != b, "<": lambda a, b: a < b, "<=": lambda a, b: a <= b, ">": lambda a, b: a > b, ">=": lambda a, b: a >= b}
+    for text in texts:
+        stms = []
+        parse_string(f":- {text}.", stms.append)
+        lit = stms[-1].body[0]
+        gb = Goebner()
+        rels = gb.to_sympy(lit)
+        neg2 = text.startswith("not ") and not text.startswith("not not ")
+        two = text.count("#sum") == 1 and "}" in text and text.split("}")[1].strip() != ""
+        if rels is None:
+            continue
+        syms = {str(s): s for e in rels for s in e.free_symbols}
+        aggs = [s for s in gb._sym2agg]  # pylint: disable=protected-access
+        for x, y, a in itertools.product((-1, 0, 2), repeat=3):
+            # truth of the literal with aggregate value a
+            body = text[4:] if neg2 else (text[8:] if text.startswith("not not ") else text)
+            if "#sum" in body:
+                left, rest = body.split("#sum", 1)
+                lo = left.strip().split()
+                truth = pyop[lo[1]](x, a)
+                tail = rest.split("}", 1)[1].strip().split()
+                if tail:
+                    truth = truth and pyop[tail[0]](a, y)
+            else:
+                parts = body.split()
+                truth = pyop[parts[1]](x, y)
+            if neg2:
+                truth = not truth
+            # truth of the relations: every expr must be solvable to 0 with its slack satisfying its operator
+            sat = True
+            for e in rels:
+                subs = {}
+                for name, s in syms.items():
+                    if name == "X":
+                        subs[s] = x
+                    elif name == "Y":
+                        subs[s] = y
+                    elif s in aggs:
+                        subs[s] = a
+                val = e.subs(subs)
+                slack = [s for s in val.free_symbols if s in gb.help_neq_vars]
+                if not slack:
+                    sat = sat and (val == 0)
+                else:
+                    sol = sympy.solve(val, slack[0])
+                    opn = NAME_OF[A.ComparisonOperator(gb.help_neq_vars[slack[0]])]
+                    sat = sat and bool(sol) and PYOP[opn](sol[0], 0)
+            if sat != truth:
+                problems.append({"literal": text, "X": x, "Y": y, "aggregate_value": a, "literal_holds": truth, "relations_hold": sat, "relations": [str(e) for e in rels]})
+                break
+        if len(problems) >= 2:
+            break
+    return {"confirmed": bool(problems), "bounded": True, "problems": problems[:2]}
